@@ -638,3 +638,89 @@ impl public_suffix::EffectiveTLDProvider for RecTld {
         res
     }
 }
+
+// ---------------------------------------------------------------------------------------------
+// a store whose items are not `Passkey`s (e.g. vault entries): conversion fails while an entry is locked
+// ---------------------------------------------------------------------------------------------
+
+#[derive(Clone, Debug)]
+pub struct VaultItem {
+    pub inner: Passkey,
+    pub locked: bool,
+}
+
+impl TryFrom<VaultItem> for Passkey {
+    type Error = ();
+    fn try_from(v: VaultItem) -> Result<Passkey, ()> {
+        if v.locked {
+            Err(())
+        } else {
+            Ok(v.inner)
+        }
+    }
+}
+
+/// The reference store seen through vault items; entries whose id is in `locked` cannot be converted.
+#[derive(Clone)]
+pub struct VaultStore {
+    pub inner: RecStore,
+    pub locked: Arc<Mutex<std::collections::HashSet<Vec<u8>>>>,
+}
+
+#[async_trait::async_trait]
+impl CredentialStore for VaultStore {
+    type PasskeyItem = VaultItem;
+
+    async fn find_credentials(
+        &self,
+        ids: Option<&[PublicKeyCredentialDescriptor]>,
+        rp_id: &str,
+    ) -> Result<Vec<VaultItem>, StatusCode> {
+        let found = self.inner.find_credentials(ids, rp_id).await?;
+        let locked = self.locked.lock().unwrap();
+        Ok(found.into_iter().map(|p| VaultItem { locked: locked.contains(&p.credential_id.to_vec()), inner: p }).collect())
+    }
+
+    async fn save_credential(
+        &mut self,
+        cred: Passkey,
+        user: PublicKeyCredentialUserEntity,
+        rp: PublicKeyCredentialRpEntity,
+        options: Options,
+    ) -> Result<(), StatusCode> {
+        self.inner.save_credential(cred, user, rp, options).await
+    }
+
+    async fn update_credential(&mut self, cred: Passkey) -> Result<(), StatusCode> {
+        self.inner.update_credential(cred).await
+    }
+
+    async fn get_info(&self) -> StoreInfo {
+        self.inner.get_info().await
+    }
+}
+
+#[derive(Clone)]
+pub struct VaultUv(pub RecUv);
+
+#[async_trait::async_trait]
+impl UserValidationMethod for VaultUv {
+    type PasskeyItem = VaultItem;
+
+    async fn check_user<'a>(
+        &self,
+        credential: Option<&'a VaultItem>,
+        presence: bool,
+        verification: bool,
+    ) -> Result<UserCheck, Ctap2Error> {
+        self.0.check_user(credential.map(|v| &v.inner), presence, verification).await
+    }
+
+    fn is_presence_enabled(&self) -> bool {
+        self.0.is_presence_enabled()
+    }
+
+    fn is_verification_enabled(&self) -> Option<bool> {
+        self.0.is_verification_enabled()
+    }
+}
